@@ -12,6 +12,7 @@ verus! {
 //@include prelude/io_error.rs
 //@include prelude/chan.rs
 //@include prelude/sync.rs
+//@include prelude/option.rs
 
 // ---- turn tokens (DESIGN 3.2).  finished(c): "the writer whose on_finish sender is channel c has
 // been dropped (has signalled)".  Stable, hence a timeless fact: what is KNOWN at a program point
@@ -34,8 +35,6 @@ pub assume_specification<T>[ Sender::<T>::send ](s: &Sender<T>, t: T) -> (r: Res
 pub assume_specification<T>[ Receiver::<T>::recv ](s: &Receiver<T>) -> (r: Result<T, std::sync::mpsc::RecvError>)
     ensures r is Ok, finished(rx_chan(s));
 
-pub assume_specification<T: ?Sized>[ Mutex::<T>::lock ](m: &Mutex<T>) -> (r: std::sync::LockResult<std::sync::MutexGuard<'_, T>>)
-    ensures r is Ok, guard_of(&r->Ok_0) == m;
 
 pub assume_specification<T>[ Mutex::<T>::new ](t: T) -> (m: Mutex<T>);
 
